@@ -228,6 +228,8 @@ def run(P, R, L):
     K.verd1(P, R, L, what=("version",))
     R.clause("ERR-4", "an error that cut next/prev short is parked and handed on through status() by every wrapping iterator, and MergingIterator::get_error includes it")
     K.err4_status_chain(P, R, L)
+    R.clause("ORD-22", "a failed log write leaves the writer's block offset where the file is")
+    K.ord22_writer_offset_after_the_write(P, R, L)
     R.clause("ORD-21", "a failed table open leaves the file-level iterator's (index, iterator) pair untouched: the retry does not skip the file")
     K.ord21_file_loader_commits_after_open(P, R, L)
     R.clause("ERR-3", "a source that could not be positioned is reported by the merging iterator's seek methods (a scan fails, it does not serve what the source shadows)")
